@@ -69,6 +69,9 @@ def run(ctx):
     ctx.require_coverage(lp, ["DoDeliver"], "MC_Loop")
     seqs = ctx.read_emitted(lp, "sequences.ndjson")
     alphabet = ctx.read_emitted(lp, "alphabet.ndjson")
+    loopworld = ctx.read_emitted(lp, "loopworld.ndjson")
+    if len(loopworld) != 1:
+        ctx.broken("expected one world of the loop model, got %d" % len(loopworld))
     if len(alphabet) != 5 * 8:
         ctx.broken("expected 8 letters for each of 5 loop steps, got %d" % len(alphabet))
     loop_steps = sorted({q["step"] for q in seqs})
@@ -94,7 +97,7 @@ def run(ctx):
         pkg, label, prow, pcases, expected, pseqs = job
         return ctx.gotest(pkg, "^TestVerif_C12_", ["c12_test.go"], extra_overlay=OV, label=label,
                           inputs={"rows.ndjson": prow, "world.ndjson": world, "cases.ndjson": pcases,
-                                  "sequences.ndjson": pseqs, "alphabet.ndjson": alphabet},
+                                  "sequences.ndjson": pseqs, "alphabet.ndjson": alphabet, "loopworld.ndjson": loopworld},
                           timeout=ctx.pick(2400, 5400))
 
     # the eight harness binaries are independent: build and run them side by side
